@@ -567,6 +567,41 @@ fn exec_op(
             followers.insert(fid, Follower { items, handle });
             json!({"ok": true})
         }
+        "follow_cas_start" => {
+            // a follower that reads the content of every delivered frame at once (C10: present before observable)
+            let fid = req["fid"].as_str().unwrap_or("fc").to_string();
+            let opts = match ReadOptions::from_query(Some(req["query"].as_str().unwrap_or("follow=true&tail=true"))) {
+                Ok(o) => o,
+                Err(e) => return json!({"err": format!("options: {}", e)}),
+            };
+            let items = Arc::new(Mutex::new((Vec::new(), false)));
+            let items2 = items.clone();
+            let store2 = store.clone();
+            let rx = rt.block_on(store.read(opts));
+            let handle = rt.spawn(async move {
+                let mut rx = rx;
+                while let Some(mut f) = rx.recv().await {
+                    if let Some(h) = f.hash.clone() {
+                        let verdict = match store2.cas_read(&h).await {
+                            Ok(bytes) => {
+                                if crate::cas::sha256_integrity(&bytes) == h.to_string() { "ok".to_string() } else { format!("content-does-not-match-hash len={}", bytes.len()) }
+                            }
+                            Err(e) => format!("unreadable: {}", e),
+                        };
+                        let mut m = f.meta.take().unwrap_or(json!({}));
+                        if !m.is_object() {
+                            m = json!({"orig": m});
+                        }
+                        m["__cas"] = json!(verdict);
+                        f.meta = Some(m);
+                    }
+                    items2.lock().unwrap().0.push(f);
+                }
+                items2.lock().unwrap().1 = true;
+            });
+            followers.insert(fid, Follower { items, handle });
+            json!({"ok": true})
+        }
         "follow_poll" => {
             let fid = req["fid"].as_str().unwrap_or("f");
             let min = req["min"].as_u64().unwrap_or(0) as usize;
